@@ -255,6 +255,133 @@ def inject(case):
     return res
 
 
+def multi(case):
+    """A history with several interruptions: run -> signal -> resume -> signal -> ... -> resume -> finish.  Every signal is delivered before the first line of a
+    function in which the state is consistent on the unchanged code (update_state / the INS loop head), so that what is observed is the *repetition* of
+    interrupt-and-resume (state carried over more than one resume, random streams, counters), not the known windows of the replace step."""
+    assert_repo()
+    from vlib.runs import std_kwargs, ins_kwargs, quiet_logging, reset_globals
+    from vlib import zoo
+    from vlib.monitors.standard import StandardMonitors
+    from vlib.monitors.ins import INSMonitors
+    from vlib.monitors.results import check_standard_result, check_ins_result
+    from nessai.flowsampler import FlowSampler
+
+    quiet_logging()
+    ins = case["sampler"] == "ins"
+    std, insf = target_functions()
+    code, start, lns, src = lines_of((insf if ins else std)[case["func"]])
+    target = lns[0]
+    out = case["outdir"]
+    shutil.rmtree(out, ignore_errors=True)
+    kw = (ins_kwargs if ins else std_kwargs)(dict(INS_KW if ins else STD_KW, **case.get("kwargs", {})))
+    names = None
+    res = dict(sampler=case["sampler"], its=case["its"], delivered=0, problems=[], segments=[])
+    problems = res["problems"]
+    snap = None
+    rf = os.path.join(out, "nested_sampler_resume.pkl")
+    try:
+        for seg, it in enumerate(list(case["its"]) + [None]):
+            reset_globals()
+            model = zoo.make(case.get("model", "G2u"))
+            names = list(model.names)
+            mon = (INSMonitors if ins else StandardMonitors)(model)
+            mon.abort_props = []
+            fired = [False]
+            new_snap = {}
+            try:
+                mon.arm()
+                fs = FlowSampler(model, output=out, resume=seg > 0, importance_nested_sampler=ins, exit_code=130, **kw)
+                ns = fs.ns
+                if ins:
+                    mon.min_samples = ns.min_samples
+                info = dict(segment=seg, resumed=bool(getattr(ns, "resumed", False)), it=int(ns.iteration))
+                if seg > 0 and not ns.resumed and (os.path.exists(rf) or not ins):
+                    problems.append(("multi:did-not-resume", dict(segment=seg)))
+                if seg > 0 and not ins and ns.resumed and snap:
+                    pts = points_of(ns, names)
+                    if sorted(pts) != sorted(set(snap["pts"])) or len(pts) != len(set(pts)):
+                        problems.append(("multi:resume:points-not-conserved", dict(segment=seg, lost=len(set(snap["pts"]) - set(pts)), duplicated=len(pts) - len(set(pts)))))
+                    if ns.iteration != snap["it"]:
+                        problems.append(("multi:resume:iteration-differs", dict(segment=seg, interrupted_at=snap["it"], resumed_at=int(ns.iteration))))
+                    if len(ns.nested_samples) != len(ns.state.logLs) - 1 or len(ns.insertion_indices) != ns.iteration:
+                        problems.append(("multi:resume:counts-disagree", dict(segment=seg, nested=len(ns.nested_samples), state=len(ns.state.logLs) - 1, indices=len(ns.insertion_indices), it=int(ns.iteration))))
+
+                def tracer(frame, event, arg):
+                    if frame.f_code is code and it is not None:
+                        def local(frame, event, arg):
+                            if event == "line" and frame.f_lineno == target and not fired[0] and fs.ns.iteration >= it:
+                                fired[0] = True
+                                sys.settrace(None)
+                                new_snap["it"] = int(fs.ns.iteration)
+                                if not ins:
+                                    new_snap["pts"] = points_of(fs.ns, names)
+                                fs.safe_exit(case.get("signum", 15), frame)
+                            return local
+                        return local
+                    return None
+
+                sys.settrace(tracer)
+                try:
+                    fs.run(plot=False, save=False)
+                    finished = True
+                except SystemExit as e:
+                    finished = False
+                    if e.code != 130:
+                        problems.append(("exit-code", e.code))
+                finally:
+                    sys.settrace(None)
+                info["interrupted_at"] = new_snap.get("it")
+                res["segments"].append(info)
+                for prop, key, detail in mon.problems:
+                    if prop in ("C01", "C03", "C04", "C05"):
+                        problems.append((f"multi:segment{seg}:{prop}:{key}", detail))
+                if not finished:
+                    res["delivered"] += 1
+                    snap = new_snap
+                    if not os.path.exists(rf) and not (ins and new_snap.get("it", 0) == 0):
+                        problems.append(("handler-left-no-checkpoint", dict(segment=seg, interrupted_at_iteration=new_snap.get("it"))))
+                    continue
+                # ---- the run finished (possibly before a later interruption point was reached)
+                ns = fs.ns
+                if ins:
+                    check_ins_result(fs, model, mon)
+                    a = ns.samples_unit
+                else:
+                    mon.end_of_run(ns)
+                    check_standard_result(fs, model, mon)
+                    a = np.array(ns.nested_samples)
+                pts = np.ascontiguousarray(np.stack([a[n] for n in names], axis=1))
+                uniq = len(np.unique(pts.view([("", pts.dtype)] * pts.shape[1])))
+                res["final"] = dict(it=int(ns.iteration), n=len(a), unique=uniq, sorted=bool(np.all(np.diff(a["logL"]) >= 0)), logZ=float(fs.logZ), finalised=bool(ns.finalised))
+                if uniq != len(a):
+                    problems.append(("final:discarded-point-recorded-twice", len(a) - uniq))
+                if not res["final"]["sorted"]:
+                    problems.append(("final:unsorted", ""))
+                if not ins and (len(a) != ns.iteration + ns.nlive or len(ns.state.logLs) - 1 != len(a) or len(ns.insertion_indices) != ns.iteration):
+                    problems.append(("final:counts-disagree", dict(n=len(a), it=int(ns.iteration), state=len(ns.state.logLs) - 1, indices=len(ns.insertion_indices))))
+                for prop, key, detail in mon.problems:
+                    if prop in ("C01", "C03", "C04", "C05") and not any(q[0].endswith(f"{prop}:{key}") for q in problems):
+                        problems.append((f"final:{prop}:{key}", detail))
+                break
+            finally:
+                mon.disarm()
+                try:
+                    model.close_pool()
+                except Exception:
+                    pass
+    except BaseException as e:
+        import traceback
+
+        tb = traceback.format_exc()
+        fn = [l.split(", in ")[-1].strip() for l in tb.splitlines() if l.strip().startswith("File ") and "/nessai/" in l][-1:]
+        problems.append((f"resumed-run-raises:{type(e).__name__}@{fn[0] if fn else '?'}", str(e)[:150]))
+    finally:
+        sys.settrace(None)
+        shutil.rmtree(out, ignore_errors=True)
+    return res
+
+
 REAL_SIGNAL_SCRIPT = r'''
 import json, os, signal, sys
 cfg = json.loads(sys.argv[1])
@@ -359,9 +486,11 @@ def main():
     if chk.replay_case:
         c = dict(chk.replay_case["case"])
         c["outdir"] = os.path.join(chk.scratch, "replay")
-        r = inject(c)
+        r = multi(c) if c.get("multi") else inject(c)
         print(json.dumps(r, indent=1, default=str)[:3000])
         return
+    if chk.args.only:
+        cases = [c for c in cases if chk.args.only in c["func"]]
     res = run_cases(cases, "checks.c13:inject", chk.scratch, nproc=chk.args.nproc, timeout=400)
     reached_lines = set()
     states = set()
@@ -398,11 +527,59 @@ def main():
             seen.add(k)
             chk.violation(k, f"{c['sampler']} signal {c['signum']} before `{c['stmt']}` ({c['func']}+{c['rel']}, iteration >= {c['min_it']}, interrupted at {r.get('snap_it')}, "
                              f"state {pred}): {key}: {detail}; resume={r.get('resume')} final={r.get('final')}", small)
+    # ---- histories with several interruptions (state carried over more than one resume)
+    mcases = []
+    n_multi = 15 if chk.quick else 100
+    for i in range(n_multi):
+        rng = rng_for(chk.seed, "C13", "multi", i)
+        if i % 5 == 4:
+            its = sorted({int(v) for v in rng.choice([1, 2, 3, 4], size=int(rng.integers(2, 4)), replace=False)})
+            mcases.append(dict(sampler="ins", func="ins_loop", its=its, kwargs={}, signum=[15, 2][i % 2], outdir=os.path.join(chk.scratch, f"multi-{i}"), _timeout=600))
+            continue
+        kind = i % 5
+        kwargs = {}
+        if kind in (0, 1):      # all interruptions inside a long uninformed phase, far enough apart that every session exhausts the pickled pool and draws fresh ones
+            kwargs = dict(maximum_uninformed=170, uninformed_acceptance_threshold=0.0)
+            its = [int(rng.integers(5, 40))]
+            for _ in range(int(rng.integers(1, 4))):
+                its.append(its[-1] + int(rng.integers(12, 45)))
+        elif kind == 2:         # across the switch to the flow proposal
+            its = sorted({int(rng.integers(20, 58)), int(rng.integers(58, 70)), int(rng.integers(70, 130))})
+        else:                   # flow phase
+            its = sorted({int(v) for v in rng.integers(62, 220, size=int(rng.integers(2, 4)))})
+        kwargs = dict(kwargs, **({"analytic_priors": True} if i % 10 == 1 else ({"seed": 0} if i % 10 == 5 else {})))
+        mcases.append(dict(sampler="std", func="update_state", its=its, kwargs=kwargs, model="G2n" if i % 10 == 1 else "G2u", signum=[15, 2, 14][i % 3],
+                           outdir=os.path.join(chk.scratch, f"multi-{i}"), _timeout=600))
+    if chk.args.only:
+        mcases = [c for c in mcases if chk.args.only in "multi"]
+    mres = run_cases(mcases, "checks.c13:multi", chk.scratch, nproc=chk.args.nproc, timeout=600)
+    for c, r in zip(mcases, mres):
+        small = {k: c[k] for k in ("sampler", "func", "its", "kwargs", "signum", "model") if k in c}
+        if "delivered" not in r:
+            chk.note_inconclusive(f"multi-interruption history {small}: {str(r)[:300]}")
+            chk.case_done()
+            continue
+        chk.count("multi_histories")
+        chk.count("multi_interruptions_delivered", r["delivered"])
+        if r["delivered"] >= 2:
+            chk.count("multi_histories_with_two_or_more_resumes")
+        chk.case_done(ident=("multi", c["sampler"], tuple(c["its"]), str(c["kwargs"])), nontrivial=r["delivered"] >= 2 and "final" in r,
+                      sample=dict(multi_history=small, segments=r["segments"], final=r.get("final"), problems=r["problems"][:2]) if len(chk.samples) < 9 and c["outdir"].endswith(("multi-0", "multi-4")) else None)
+        seen = set()
+        for key, detail in r["problems"]:
+            k = "C13:" + key.split(":segment")[0] if ":segment" in key else "C13:" + key
+            if k in seen:
+                continue
+            seen.add(k)
+            chk.violation(k, f"{c['sampler']} history with interruptions at iterations {c['its']} (signal {c['signum']}, before the first line of {c['func']}), "
+                             f"{r['delivered']} delivered: {key}: {detail}; segments={r['segments']} final={r.get('final')}", dict(small, multi=True))
     # ---- real signals
     rs_cases = []
     picks = [("std", "update_state", 1), ("std", "check_state", 1), ("std", "nested_sampling_loop", 30), ("ins", "ins_loop", 2), ("ins", "add_and_update_points", 2), ("std", "fp_train", 61)]
     if not chk.quick:
         picks = picks * 3
+    if chk.args.only:
+        picks = []
     for i, (s, fn, ph) in enumerate(picks):
         cand = [t for t in targets if t["sampler"] == s and t["func"] == fn]
         t = cand[(i * 7) % len(cand)]
@@ -433,8 +610,10 @@ def main():
                "draw/populate/train; INS: loop, add_and_update_points, remove_samples, add_new_proposal(+weight), OrderedSamples methods, proposal draw/train) at phases "
                "covering the first iteration, uninformed sampling, the switch/first training and late flow sampling; exit code, conservation of points at resume, count "
                "identities and the completed run (C01/C03/C05 monitors) are checked; INS: resume file hash unchanged by the handler. Plus real signals (SIGTERM/SIGINT/"
-               "SIGALRM, two exit codes) delivered with os.kill to child processes. Non-trivial = injection that was delivered; distinct by (function, line, phase).",
-               require_observed=["injections_delivered", "injections_std", "injections_ins", "real_signals_delivered", "injections_resumed_to_valid_run"])
+               "SIGALRM, two exit codes) delivered with os.kill to child processes. Plus histories with 2-4 interruptions and resumes in a row (uninformed phase, across the "
+               "proposal switch, flow phase, INS iteration heads), each delivered at a point where the state is consistent, with point conservation checked at every resume "
+               "and the monitors armed in every segment. Non-trivial = injection that was delivered; distinct by (function, line, phase).",
+               require_observed=["injections_delivered", "injections_std", "injections_ins", "real_signals_delivered", "injections_resumed_to_valid_run", "multi_histories_with_two_or_more_resumes"])
 
 
 if __name__ == "__main__":
